@@ -44,7 +44,7 @@ META = {
                 'D4 error names', 'D5 the no-reply flag is real',
                 'D6 binding: the cache lookup searches every class of the '
                 'MRO; executeMethod invokes the bound implementation exactly '
-                'once with the decoded arguments (and the caller iff asked)',
+                'once with the decoded arguments (and the caller iff asked); the per-class tables are read through the class\'s own __dict__',
                 'D7 reply packaging: the body holds exactly the declared '
                 'number of return values'],
     'undecided': ['which Python callable a name resolves to at run time '
@@ -353,6 +353,11 @@ def run(ctx):
     from . import c03
     sub = _Sub(ctx, 'C10.D5')
     c03.reader_rules(sub, None)
+    from .common import class_memo_not_inherited
+    class_memo_not_inherited(
+        ctx, 'C10.D6', ('objects',),
+        'calls to the members the subclass binds are answered with '
+        'NotImplementedError or run the base class\'s implementation')
     ctx.floor('C10.D1', 12)
     ctx.floor('C10.D2', 10)
     ctx.floor('C10.D3', 6)
